@@ -65,7 +65,7 @@ P = {
                        'C15_extend_is_reference', 'C15_par_set_operations', 'C15_par_set_predicates']),
  'C16': dict(families=[('ser', 120, 500, 120), ('serset', 120, 800, 120)], aspects='RSD', profiles=['debug', 'release'],
              theorems=['C16_serialize_exact_len_each_once', 'C16_deserialize_collects', 'C16_roundtrip', 'C16_roundtrip_any_phase', 'C16_in_place_replaces_entirely']),
- 'C05': dict(families=[('mixed', 120, 2000, 120), ('entry', 80, 1500, 120), ('iter', 80, 1500, 120), ('zst', 40, 400, 150), ('fuse', 100, 1500, 120)], aspects='RS', profiles=['debug', 'release'],
+ 'C05': dict(families=[('mixed', 120, 2000, 120), ('entry', 80, 1500, 120), ('iter', 80, 1500, 120), ('zst', 40, 400, 150), ('fuse', 300, 4000, 120)], aspects='RS', profiles=['debug', 'release'],
              asan=[('mixed', 100, 1500, 120), ('entry', 100, 1500, 120), ('iter', 60, 800, 120), ('zst', 30, 300, 150), ('fuse', 80, 1200, 120)],
              theorems=['C05_no_fault', 'C05_cursor_agrees']),
 }
